@@ -44,6 +44,11 @@ def corpus(build):
         for g in ("xoshiro", "splitmix", "wyrand"):
             out.append("word gen=%s seed=%d via=from_seed ops=" % (g, w))
         out.append("word gen=xoshiro seed=%d via=seeded ops=u64,u64,u32" % w)
+    # seeds whose documented expansion has two structured state words (spec-guided search in the harness): where a "state quality" guard bites
+    from .gen_int import structured_xoshiro_seeds
+    for sd in structured_xoshiro_seeds():
+        out.append("word gen=xoshiro seed=%d via=from_seed ops=" % sd)
+        out.append("word gen=xoshiro seed=%d via=seeded ops=u64,u64,u32" % sd)
     return out
 
 
@@ -113,7 +118,8 @@ def extra(binary, build, tier, rng):
     the documented expansion; if it differs from s, and the implementation gives it the same state, two seeds collide."""
     import re
     n = 40 if tier == "quick" else 2000
-    ss = seeds(rng, n)
+    from .gen_int import structured_xoshiro_seeds
+    ss = seeds(rng, n) + structured_xoshiro_seeds(tier)
     plan = [("xoshiro", "word gen=xoshiro seed=%d via=from_seed ops="), ("xoshiro-seeded", "word gen=xoshiro seed=%d via=seeded ops="), ("splitmix", "word gen=splitmix seed=%d via=from_seed ops="),
             ("wyrand", "word gen=wyrand seed=%d via=from_seed ops="), ("chacha", "chacha n=12 seed=%d ops=")]
     probes = 0
